@@ -33,7 +33,7 @@ ASSUMPTIONS = [
     "device configurations are compared only at IR version >= 11; function value info only at IR version >= 10",
 ]
 BUDGET = {"quick": (16, 500), "thorough": (16, 12000)}
-N_OPS = 17
+N_OPS = 18
 
 
 def strategy(tier, phase):
@@ -69,6 +69,25 @@ class Ctx:
                 seen.add(id(g))
                 res.append(g)
         return res
+
+
+def _chain_to(g, target):
+    """Graphs nested strictly below `g` on the way down to `target` (inclusive); None if target is not below g."""
+    import onnx_ir as ir
+
+    for n in g:
+        for a in n.attributes.values():
+            if a.is_ref() or a.type not in (ir.AttributeType.GRAPH, ir.AttributeType.GRAPHS):
+                continue
+            for sg in ([a.value] if a.type == ir.AttributeType.GRAPH else list(a.value)):
+                if sg is None:
+                    continue
+                if sg is target:
+                    return [sg]
+                rest = _chain_to(sg, target)
+                if rest is not None:
+                    return [sg] + rest
+    return None
 
 
 def apply_op(c, op):
@@ -182,7 +201,15 @@ def apply_op(c, op):
             inner = ir.Node("", "Identity", [cap], num_outputs=1, name=c.fresh("in"))
             inner.outputs[0].name = c.fresh("iv")
             sub = ir.Graph([], [inner.outputs[0]], nodes=[inner], name=c.fresh("sub"))
-            holder = ir.Node("", "If", [cap], [ir.AttrGraph("then_branch", sub)] + ([ir.AttrGraphs("more", [ir.Graph([], [], nodes=[], name=c.fresh("e"))])] if d % 2 else []),
+            more = []
+            if d % 2:
+                # a list-of-graphs attribute: one empty graph and one whose nodes capture outer values too
+                cap2 = outer[(b + d) % len(outer)]
+                m1 = ir.Node("", "Add", [cap, cap2], num_outputs=1, name=c.fresh("mn"))
+                m1.outputs[0].name = c.fresh("mv")
+                more = [ir.AttrGraphs("more", [ir.Graph([], [], nodes=[], name=c.fresh("e")), ir.Graph([], [m1.outputs[0]], nodes=[m1], name=c.fresh("m"))])]
+                c.flags.add("graphs_attr_capture")
+            holder = ir.Node("", "If", [cap], [ir.AttrGraph("then_branch", sub)] + more,
                              num_outputs=1, name=c.fresh("h"))
             holder.outputs[0].name = c.fresh("hv")
             g.append(holder)
@@ -255,6 +282,27 @@ def apply_op(c, op):
                 if inner_vals:
                     inner_vals[(b + d) % len(inner_vals)].name = w.name
                     c.flags.add("shadowing")
+
+
+    elif k == 17 and nodes:  # an input of a node nested at any depth (GRAPH or GRAPHS attribute) is rewired to an outer value
+        holders = [(n, a) for n in nodes for a in n.attributes.values() if not a.is_ref() and a.type in (ir.AttributeType.GRAPH, ir.AttributeType.GRAPHS)]
+        if holders:
+            hn, a_ = holders[b % len(holders)]
+            subs = [a_.value] if a_.type == ir.AttributeType.GRAPH else list(a_.value)
+            deep = [n for sg in subs if sg is not None for n in ir.traversal.RecursiveGraphIterator(sg) if n.inputs]
+            outer = [o for n in nodes for o in n.outputs if o.name and n is not hn] + [v for v in g.inputs if v.name] + [v for v in g.initializers.values() if v.name]
+            if deep and outer:
+                tgt = deep[d % len(deep)]
+                w = outer[(b + d) % len(outer)]
+                # the name must mean the outer value everywhere between its graph and the consumer: not redefined on the way
+                chain = _chain_to(g, tgt.graph)  # graphs strictly below g down to the consumer's graph
+                scope_names = set()
+                for gg in chain or ():
+                    scope_names |= {v.name for v in list(gg.inputs) + list(gg.initializers.values())} | {o.name for n in gg for o in n.outputs}
+                if chain is not None and w.name not in scope_names:
+                    tgt.replace_input_with(d % len(tgt.inputs), w)
+                    c.flags.add("nested_capture")
+                    c.flags.add("rewired_capture" + ("_graphs_attr" if a_.type == ir.AttributeType.GRAPHS else ""))
 
 
 def execute(case):
